@@ -65,10 +65,19 @@
    (7) MsgPropose on a leader is dropped exactly when: no own progress / transfer pending /
        conf-change decode error / uncommitted-size refusal; a dropped proposal changes nothing
        except possibly pending_conf_index.
-   NOT proved at step level: "for every message a leader emits in every reachable state" is
-   established per emission point (maybe_send_append, send_heartbeat, bcast_heartbeat,
-   try_batching); the commit <= committed clause is proved at emission time only (the commit
-   index is monotone afterwards, not proved here). *)
+   (8) advertised commit indexes, as an invariant over executions: [CInv c r] = the commit
+       index is >= c and every queued MsgAppend/MsgHeartbeat has m_commit <= the node's own
+       commit index.  Preserved (for every c, which also gives "the commit index never
+       decreases") by every function of the Raft API and every RawNode entry point; the
+       messages handed out by ready/advance/advance_append satisfy the bound w.r.t. the commit
+       index of the state they leave; a node with an empty outbound queue satisfies it.  This
+       covers every emission point of these two kinds, wherever it is in the code (also the
+       batching rewrite of a queued message).
+   NOT proved: the step-level form of (2)/(3) ("every MsgAppend queued by step is a slice of the
+   log"): established per emission point (maybe_send_append, try_batching); relating queued
+   messages to the log over time needs leader-append-only (C05, P level).  The heartbeat clause
+   "m_commit <= follower's acknowledged index" is proved at emission (5), not as a queue
+   invariant (matched can be reset by pr_reset while a heartbeat is queued). *)
 From RV Require Import Base.Prelude Base.IdSet M.Util M.Proto M.MemStorage M.MemStorageProofs
   M.Inflights M.InflightsProofs M.Progress M.RaftLog M.ConfChange M.Msg M.Raft M.RawNode
   M.RaftProofs M.RaftProofsC13.
@@ -548,4 +557,87 @@ Proof.
   cbv zeta. split.
   - eexists. vm_compute. reflexivity.
   - eexists. split; [vm_compute; reflexivity|]. vm_compute. reflexivity.
+Qed.
+
+(* ------------------------------------------------------------------ *)
+(* (8) advertised commit indexes never exceed the node's own: an invariant *)
+Theorem C13_commit_inv_meaning :
+  forall c r,
+  CInv c r ->
+  c <= committed (r_log r) /\
+  forall m, In m (r_msgs r) -> m_type m = MsgAppend \/ m_type m = MsgHeartbeat ->
+    m_commit m <= committed (r_log r).
+Proof. exact CInv_meaning. Qed.
+Print Assumptions C13_commit_inv_meaning.
+
+Theorem C13_msg_commit_ok_meaning :
+  forall c m,
+  msg_commit_ok c m <-> (m_type m = MsgAppend \/ m_type m = MsgHeartbeat -> m_commit m <= c).
+Proof. exact msg_commit_ok_meaning. Qed.
+Print Assumptions C13_msg_commit_ok_meaning.
+
+Theorem C13_commit_inv_init :
+  forall r, r_msgs r = [] -> CInv (committed (r_log r)) r.
+Proof. exact CInv_init. Qed.
+Print Assumptions C13_commit_inv_init.
+
+Theorem C13_commit_inv_raft_api : forall c,
+  (forall r m r' c0, step r m = Ok (r', c0) -> CInv c r -> CInv c r') /\
+  (forall r r' b, tick r = Ok (r', b) -> CInv c r -> CInv c r') /\
+  (forall r cc r' o, raft_apply_conf_change r cc = Ok (r', o) -> CInv c r -> CInv c r') /\
+  (forall r i t r', on_persist_entries r i t = Ok r' -> CInv c r -> CInv c r') /\
+  (forall r i r', on_persist_snap r i = Ok r' -> CInv c r -> CInv c r') /\
+  (forall r a r', commit_apply r a = Ok r' -> CInv c r -> CInv c r') /\
+  (forall r ents, CInv c r -> CInv c (reduce_uncommitted_size r ents)) /\
+  (forall r hs r', load_state r hs = Ok r' -> CInv c r -> CInv c r') /\
+  (forall r r' c0, request_snapshot r = Ok (r', c0) -> CInv c r -> CInv c r') /\
+  (forall r r', ping r = Ok r' -> CInv c r -> CInv c r') /\
+  (forall r target cp r', adjust_max_inflight_msgs r target cp = Ok r' -> CInv c r -> CInv c r') /\
+  (forall r, CInv c r -> CInv c (maybe_free_inflight_buffers r)) /\
+  (forall r lim, CInv c r -> CInv c (set_max_apply_unpersisted_log_limit r lim)) /\
+  (forall r e r', enable_group_commit r e = Ok r' -> CInv c r -> CInv c r') /\
+  (forall r ids r', assign_commit_groups r ids = Ok r' -> CInv c r -> CInv c r') /\
+  (forall r s r' b, restore r s = Ok (r', b) -> CInv c r -> CInv c r') /\
+  (forall r r', become_leader r = Ok r' -> CInv c r -> CInv c r') /\
+  (forall r t l r', become_follower r t l = Ok r' -> CInv c r -> CInv c r').
+Proof. exact commit_inv_raft_api. Qed.
+Print Assumptions C13_commit_inv_raft_api.
+
+Theorem C13_commit_inv_rawnode_api : forall c,
+  (forall n m n' c0, rn_step n m = Ok (n', c0) -> NCInv c n -> NCInv c n') /\
+  (forall n n' b, rn_tick n = Ok (n', b) -> NCInv c n -> NCInv c n') /\
+  (forall n n' c0, rn_campaign n = Ok (n', c0) -> NCInv c n -> NCInv c n') /\
+  (forall n ctx data n' c0, rn_propose n ctx data = Ok (n', c0) -> NCInv c n -> NCInv c n') /\
+  (forall n ctx data ty ci n' c0,
+     rn_propose_conf_change n ctx data ty ci = Ok (n', c0) -> NCInv c n -> NCInv c n') /\
+  (forall n cc n' o, rn_apply_conf_change n cc = Ok (n', o) -> NCInv c n -> NCInv c n') /\
+  (forall n n', rn_ping n = Ok n' -> NCInv c n -> NCInv c n') /\
+  (forall n n' rd, rn_ready n = Ok (n', rd) -> NCInv c n ->
+     NCInv c n' /\ Forall (msg_commit_ok (committed (r_log (rn_raft n')))) (lr_messages (rd_light rd))) /\
+  (forall n num n', rn_on_persist_ready n num = Ok n' -> NCInv c n -> NCInv c n') /\
+  (forall n rd n' lr, rn_advance_append n rd = Ok (n', lr) -> NCInv c n ->
+     NCInv c n' /\ Forall (msg_commit_ok (committed (r_log (rn_raft n')))) (lr_messages lr)) /\
+  (forall n rd n', rn_advance_append_async n rd = Ok n' -> NCInv c n -> NCInv c n') /\
+  (forall n a n', rn_advance_apply_to n a = Ok n' -> NCInv c n -> NCInv c n') /\
+  (forall n rd n' lr, rn_advance n rd = Ok (n', lr) -> NCInv c n ->
+     NCInv c n' /\ Forall (msg_commit_ok (committed (r_log (rn_raft n')))) (lr_messages lr)) /\
+  (forall n id n', rn_report_unreachable n id = Ok n' -> NCInv c n -> NCInv c n') /\
+  (forall n id f n', rn_report_snapshot n id f = Ok n' -> NCInv c n -> NCInv c n') /\
+  (forall n n' c0, rn_request_snapshot n = Ok (n', c0) -> NCInv c n -> NCInv c n') /\
+  (forall n t n', rn_transfer_leader n t = Ok n' -> NCInv c n -> NCInv c n') /\
+  (forall n ctx n', rn_read_index n ctx = Ok n' -> NCInv c n -> NCInv c n').
+Proof. exact commit_inv_rawnode_api. Qed.
+Print Assumptions C13_commit_inv_rawnode_api.
+
+(* the example leader with an empty queue satisfies it; after proposing, the queued appends
+   advertise exactly its commit index 2 *)
+Example C13_ex_commit_inv :
+  CInv 2 (ex_raft 1 false []) /\
+  exists r', step_leader (ex_raft 1 false [])
+               (msg_default <| m_type := MsgPropose |> <| m_entries := [ex_ent 0 0 [1]] |>
+                            <| m_ccinfo := [0] |>) = Ok (r', E_OK) /\
+    map (fun m => (m_type m, m_to m, m_commit m)) (r_msgs r') = [(MsgAppend, 2, 2); (MsgAppend, 3, 2)].
+Proof.
+  split; [apply (CInv_init (ex_raft 1 false [])); reflexivity|].
+  eexists. split; [vm_compute; reflexivity|]. vm_compute. reflexivity.
 Qed.
